@@ -10,13 +10,19 @@ CONSTANTS Kinds, Counts, LabelLens, Flags, ExtraLens
 
 VARIABLE s        \* [kind, n, lab, flag, ex, var]
 
-P8(k) == [j \in 1 .. 8 |-> (16 * k + j) % 256]
-P4(k) == [j \in 1 .. 4 |-> (16 * k + j) % 256]
+B8(k) == [j \in 1 .. 8 |-> (16 * k + j) % 256]
+B4(k) == [j \in 1 .. 4 |-> (16 * k + j) % 256]
+\* (variant 3: the same idea with every byte >= 156, so that every integer field is NEGATIVE in either byte order and a
+\*  sign extension, an unsigned comparison or a narrowing shows)
+H8(k) == [j \in 1 .. 8 |-> 255 - ((16 * k + j) % 100)]
+H4(k) == [j \in 1 .. 4 |-> 255 - ((16 * k + j) % 100)]
 Bytes(n, base) == [j \in 1 .. n |-> (base + j) % 256]
 Col(k) == [a |-> (200 + k) % 256, r |-> (10 + k) % 256, g |-> (20 + k) % 256, b |-> (30 + k) % 256]
 
 Mk(kind, n, lab, flag, ex, var) ==
-    LET q == 3 * var IN
+    LET q == 3 * var
+        P8(k) == IF var = 3 THEN H8(k) ELSE B8(k)
+        P4(k) == IF var = 3 THEN H4(k) ELSE B4(k) IN
     CASE kind = "track_data2" -> [rate |-> P8(q), samples |-> P8(q + 1), key |-> P4(q + 2), low |-> P8(q + 3), mid |-> P8(q + 4),
                                   high |-> P8(q + 5), extra |-> Bytes(ex, 90)]
       [] kind = "beat_data2" -> [rate |-> P8(q), samples |-> P8(q + 1), isset |-> flag,
@@ -46,7 +52,7 @@ Mk(kind, n, lab, flag, ex, var) ==
 Val == Mk(s.kind, s.n, s.lab, s.flag, s.ex, s.var)
 Aux == [dflt_sorted |-> TRUE, adj_sorted |-> TRUE]
 
-Init == s \in [kind : Kinds, n : Counts, lab : LabelLens, flag : Flags, ex : ExtraLens, var : 1 .. 2]
+Init == s \in [kind : Kinds, n : Counts, lab : LabelLens, flag : Flags, ex : ExtraLens, var : 1 .. 3]
 Next == UNCHANGED s
 Spec == Init /\ [][Next]_s
 
